@@ -86,8 +86,55 @@ Definition check (c : case) : option nat :=
 Definition to_op (x : rop) : op nat :=
   match x with RAdd pid hint r => AddPoint pid hint (to_orc r false) end.
 
+(* the hypotheses of the C03 theorems, evaluated on the recorded case: the
+   history is legal, the initial simplices refer to existing vertices
+   (wf_init) and are strictly sorted tuples (premise of the facet theorems of
+   Proofs/TriFacets.v) *)
+Fixpoint ssortedb (l : list nat) : bool :=
+  match l with
+  | a :: ((b :: _) as l') => (a <? b) && ssortedb l'
+  | _ => true
+  end.
+
+Definition wf_initb (c : case) : bool :=
+  let vs := fst (snd (fst c)) in let ss := snd (snd (fst c)) in
+  forallb (fun s => ssortedb s && forallb (fun v => v <? length vs) s) ss.
+
 Definition is_legal (c : case) : bool :=
-  legal (fst (fst c)) (start c) (map (fun x => to_op (fst (fst x))) (snd c)).
+  legal (fst (fst c)) (start c) (map (fun x => to_op (fst (fst x))) (snd c)) && wf_initb c.
+
+(* How often the premise of C03_closed_cavity_keeps_hull_property held on the
+   recorded run: (accepted insertions inside the hull, those whose cavity
+   boundary is a closed pseudo-manifold, those after which the model state has
+   the hull property).  For the steps counted second the theorem applies. *)
+Definition ridges_ok (del : list simplex) : bool :=
+  let H := hole_faces del in forallb (fun r => count_face r (all_faces H) <=? 2) (all_faces H).
+
+Fixpoint cavity_stats (d : nat) (t : tri nat) (l : list rop) (acc : nat * nat * nat) : nat * nat * nat :=
+  match l with
+  | [] => acc
+  | RAdd pid hint r :: l' =>
+      let o := to_orc r false in
+      let '(t', res) := add_point d t pid hint o in
+      let interior := match (match hint with Some s => s | None => o_locate o end) with [] => false | _ => true end in
+      let acc' :=
+        match res with
+        | Accepted del _ =>
+            if interior && negb (broken_faces (all_faces (simplices t))) then
+              let '(n, c, h) := acc in
+              (S n, if ridges_ok del then S c else c,
+               if negb (broken_faces (all_faces (simplices t'))) then S h else h)
+            else acc
+        | _ => acc
+        end in
+      cavity_stats d t' l' acc'
+  end.
+
+Definition cavity_stats_of (c : case) : nat * nat * nat :=
+  cavity_stats (fst (fst c)) (start c) (map (fun x => fst (fst x)) (snd c)) (0, 0, 0).
+
+Definition sum3 (l : list (nat * nat * nat)) : nat * nat * nat :=
+  fold_left (fun a x => let '(a1, a2, a3) := a in let '(x1, x2, x3) := x in (a1 + x1, a2 + x2, a3 + x3)) l (0, 0, 0).
 
 Fixpoint trace_r (d : nat) (s : rstate) (l : list rop) : list ((out * out) * (obs * obs)) :=
   match l with
